@@ -223,6 +223,13 @@ fn main() {
               let others: Vec<(String, String)> = corpus_ref.tests.iter().chain(corpus_ref.std.iter()).filter(|x| x.0 != f.0).cloned().collect();
               check_module(&f.0, &f.1, &others, None, &mut rng, if thorough { 12 } else { 4 }, &mut out);
               shown = format!("# module {}\n{}", f.0, f.1);
+            } else if k % 4 == 1 {
+              // every binder form in every binding construct (or-pattern alternatives, shorthand
+              // fields, nested scopes reusing field names, partially annotated lambdas)
+              let text = vcore::exprgen::binder_zoo(&mut rng);
+              let others: Vec<(String, String)> = corpus_ref.std.iter().cloned().collect();
+              check_module("Zoo", &text, &others, Some("Zoo"), &mut rng, if thorough { 16 } else { 8 }, &mut out);
+              shown = format!("# module Zoo (binder zoo)\n{text}");
             } else {
               let pseed = seed.wrapping_mul(7919).wrapping_add(k);
               let g = vcore::pgen::generate(pseed, &vcore::pgen::GenConfig::default_for(pseed));
